@@ -43,7 +43,17 @@ func (c *Ctx) registrations() []registration {
 				}
 				lit, ok := ast.Unparen(call.Args[len(call.Args)-1]).(*ast.FuncLit)
 				if !ok {
-					return true
+					// a function kept in a local variable: numLess := func(...) {...}; m.Register(ta, tb, numLess)
+					if id, isID := ast.Unparen(call.Args[len(call.Args)-1]).(*ast.Ident); isID {
+						if v, isVar := info.ObjectOf(id).(*types.Var); isVar {
+							if rhs, has := singleDefExpr[v]; has {
+								lit, ok = ast.Unparen(rhs).(*ast.FuncLit)
+							}
+						}
+					}
+					if !ok {
+						return true
+					}
 				}
 				for _, a := range call.Args[:len(call.Args)-1] {
 					if !isNamed(info.TypeOf(a), modPath+"/value", "Type") {
@@ -54,7 +64,32 @@ func (c *Ctx) registrations() []registration {
 				if fd := c.EnclosingDecl(call); fd != nil {
 					owner = fd.Name.Name
 				}
-				res = append(res, registration{pkg: pkg, call: call, types: call.Args[:len(call.Args)-1], lit: lit, owner: owner})
+				// type ids that are the variables of range loops over literal lists of type ids:
+				// for _, ta := range []Type{IntTypeId, FloatTypeId} { for _, tb := range ... { m.Register(ta, tb, f) } }
+				combos := [][]ast.Expr{nil}
+				for _, a := range call.Args[:len(call.Args)-1] {
+					alts := []ast.Expr{a}
+					if id, isID := ast.Unparen(a).(*ast.Ident); isID {
+						if rs := rangeOver(c, info, id); rs != nil {
+							if cl, isLit := ast.Unparen(rs.X).(*ast.CompositeLit); isLit && len(cl.Elts) > 0 {
+								alts = nil
+								for _, el := range cl.Elts {
+									alts = append(alts, el)
+								}
+							}
+						}
+					}
+					var next [][]ast.Expr
+					for _, cb := range combos {
+						for _, alt := range alts {
+							next = append(next, append(append([]ast.Expr{}, cb...), alt))
+						}
+					}
+					combos = next
+				}
+				for _, cb := range combos {
+					res = append(res, registration{pkg: pkg, call: call, types: cb, lit: lit, owner: owner})
+				}
 				return true
 			})
 		}
@@ -388,6 +423,47 @@ func ruleR141(c *Ctx) {
 			if cmp == nil {
 				undecided = fmt.Sprintf("the cell (%s,%s) contains no comparison (it delegates to a helper)", pair[0], pair[1])
 				continue
+			}
+			// operands kept in locals: af, _ := a.ToFloat(); bf, _ := b.ToFloat(); af < bf
+			resolveLocal := func(e ast.Expr) ast.Expr {
+				if id, ok := ast.Unparen(e).(*ast.Ident); ok {
+					if v, ok := info.ObjectOf(id).(*types.Var); ok && v != pa && v != pb {
+						if rhs, ok := singleDefExpr[v]; ok {
+							return rhs
+						}
+						// first result of a multi value call
+						if as, i := definingAssign(info, r.lit, v); as != nil && i == 0 && len(as.Rhs) == 1 {
+							return as.Rhs[0]
+						}
+					}
+				}
+				return e
+			}
+			cmp = &ast.BinaryExpr{X: resolveLocal(cmp.X), OpPos: cmp.OpPos, Op: cmp.Op, Y: resolveLocal(cmp.Y)}
+			// exactness: the cell for two integers compares integers. A conversion to a floating point type on the way
+			// makes different integers above 2^53 compare as equal / unordered.
+			if pair[0] == pair[1] && strings.HasPrefix(pair[0], "Int") {
+				viaFloat := func(e ast.Expr) bool {
+					return containsNode(e, func(y ast.Node) bool {
+						call, ok := y.(*ast.CallExpr)
+						if !ok {
+							return false
+						}
+						if tv, ok := info.Types[call.Fun]; ok && tv.IsType() {
+							if b, ok := tv.Type.Underlying().(*types.Basic); ok && b.Info()&types.IsFloat != 0 {
+								return true
+							}
+						}
+						if sel, ok := ast.Unparen(call.Fun).(*ast.SelectorExpr); ok && sel.Sel.Name == "ToFloat" {
+							return true
+						}
+						return false
+					})
+				}
+				if viaFloat(cmp.X) || viaFloat(cmp.Y) {
+					key := fmt.Sprintf("value.%s#cell(%s,%s)#exact", owner, pair[0], pair[1])
+					c.Violation(key, cmp.Pos(), "the cell for two integers compares them through a floating point conversion (%s): integers above 2^53 that differ are rounded to the same float64, so min/max/order and < treat them as equal or unordered", nodeStr(c.Fset, cmp))
+				}
 			}
 			norm := func(e ast.Expr, p types.Object, other types.Object) (string, bool) {
 				if !mentions(info, e, p) || mentions(info, e, other) {
